@@ -14,6 +14,22 @@ var vC04_got [6]int
 var vC04_n int
 var vC04_acc [4]bool // accepted (Enqueue returned nil): index 0 -> tag 11, 1 -> 12, 2 -> 21, 3 -> 22
 
+var vC04_s1, vC04_s2 *PID
+
+// substituted for deriveSenderKey (PID.ID() needs a full address): two distinct senders
+func vC04_senderKey(rc *ReceiveContext) string {
+	if rc.sender == vC04_s1 {
+		return "s1"
+	}
+	return "s2"
+}
+
+// substituted for senderLoadOrStore (its test hook pointer is set in an explicit init function, which the lazy
+// package-initialiser evaluation does not run): the default implementation
+func vC04_loadOrStore(m *UnboundedFairMailbox, key string, value any) (any, bool) {
+	return m.senders.LoadOrStore(key, value)
+}
+
 func vC04_ctx(tag int) *ReceiveContext { return &ReceiveContext{message: tag} }
 
 func vC04_tagIndex(tag int) int {
@@ -53,6 +69,7 @@ func vC04_scenario(m Mailbox, k int, fifo bool) {
 	vC04_n = 0
 	vC04_acc = [4]bool{}
 	s1, s2 := &PID{}, &PID{}
+	vC04_s1, vC04_s2 = s1, s2
 	vGo("p1", func() { vC04_enq(m, 11, s1); vC04_enq(m, 12, s1) })
 	vGo("p2", func() { vC04_enq(m, 21, s2) })
 	vGo("c", func() {
@@ -62,12 +79,14 @@ func vC04_scenario(m Mailbox, k int, fifo bool) {
 	})
 	vRun()
 	vAssume(vAllDone())
-	for i := 0; i < 4; i++ {
-		if !vC04_deq(m) {
+	// quiescent drain as runTurn does it: a nil Dequeue only ends the turn if IsEmpty agrees
+	for i := 0; i < 6; i++ {
+		if m.IsEmpty() {
 			break
 		}
+		vC04_deq(m)
 	}
-	vAssert(m.IsEmpty(), "after draining everything the mailbox reports empty")
+	vAssert(m.IsEmpty(), "a bounded number of dequeues drains a quiescent mailbox")
 	cnt := [4]int{}
 	pos := [4]int{-1, -1, -1, -1}
 	for i := 0; i < vC04_n && i < 6; i++ {
@@ -77,7 +96,8 @@ func vC04_scenario(m Mailbox, k int, fifo bool) {
 	}
 	for j := 0; j < 3; j++ {
 		if vC04_acc[j] {
-			vAssert(cnt[j] == 1, "every accepted message is dequeued exactly once")
+			vAssert(cnt[j] >= 1, "an accepted message is never lost")
+			vAssert(cnt[j] <= 1, "an accepted message is never dequeued twice")
 		} else {
 			vAssert(cnt[j] == 0, "a rejected message is never dequeued")
 		}
@@ -106,11 +126,17 @@ func vC04_nonblocking() {
 }
 
 func vC04_dbg() {
-	m := NewUnboundedSegmentedMailbox()
-	vGo("p1", func() { vC04_enq(m, 11, nil) })
+	m := NewNonBlockingBoundedMailbox(2)
+	vC04_acc = [4]bool{}
+	vGo("p1", func() { vC04_enq(m, 11, nil); vC04_enq(m, 12, nil); vC04_enq(m, 21, nil) })
 	vRun()
 	vAssume(vAllDone())
+	vAssert(vC04_acc[0] && vC04_acc[1], "DBG first two accepted")
+	vAssert(!vC04_acc[2], "DBG third rejected")
 	v := m.Dequeue()
-	vAssert(v != nil, "DBG dequeue non-nil")
+	vAssert(v != nil, "DBG first out non-nil")
+	if v != nil {
+		vAssert(v.message.(int) == 11, "DBG first out is 11")
+	}
 	vCover("end")
 }
